@@ -249,3 +249,71 @@ fn c15_human_float_count() {
     assert_eq!(format!("{}", HumanFloatCount(-123456.0)), "-123,456");
     assert_eq!(format!("{}", HumanFloatCount(-999.9995)), "-999.9995");
 }
+
+/// C14 (F12, F13): unrenderable styles are rejected when built.
+#[test]
+fn c14_builder_rejects_unrenderable_styles() {
+    let r = std::panic::catch_unwind(|| ProgressStyle::default_spinner().tick_strings(&["a"]));
+    assert!(r.is_err(), "tick_strings with one string must be rejected when the style is built");
+    let r = std::panic::catch_unwind(|| ProgressStyle::default_bar().progress_chars("\u{200b}\u{200b}"));
+    assert!(r.is_err(), "zero-width progress chars must be rejected when the style is built");
+}
+
+/// C09 (F8): reset() makes the estimator forget the old position.
+#[test]
+fn c09_reset_forgets_previous_position() {
+    let pb = ProgressBar::with_draw_target(Some(1_000_000), ProgressDrawTarget::hidden());
+    pb.set_position(200);
+    pb.reset();
+    std::thread::sleep(std::time::Duration::from_millis(30));
+    pb.inc(100);
+    assert!(pb.per_sec() > 0.0, "progress after reset() must be measured from 0, not from the old position");
+}
+
+#[derive(Debug)]
+struct FailingTerm;
+impl indicatif::TermLike for FailingTerm {
+    fn width(&self) -> u16 {
+        80
+    }
+    fn move_cursor_up(&self, _: usize) -> std::io::Result<()> {
+        Err(std::io::Error::new(std::io::ErrorKind::Other, "boom"))
+    }
+    fn move_cursor_down(&self, _: usize) -> std::io::Result<()> {
+        Err(std::io::Error::new(std::io::ErrorKind::Other, "boom"))
+    }
+    fn move_cursor_right(&self, _: usize) -> std::io::Result<()> {
+        Err(std::io::Error::new(std::io::ErrorKind::Other, "boom"))
+    }
+    fn move_cursor_left(&self, _: usize) -> std::io::Result<()> {
+        Err(std::io::Error::new(std::io::ErrorKind::Other, "boom"))
+    }
+    fn write_line(&self, _: &str) -> std::io::Result<()> {
+        Err(std::io::Error::new(std::io::ErrorKind::Other, "boom"))
+    }
+    fn write_str(&self, _: &str) -> std::io::Result<()> {
+        Err(std::io::Error::new(std::io::ErrorKind::Other, "boom"))
+    }
+    fn clear_line(&self) -> std::io::Result<()> {
+        Err(std::io::Error::new(std::io::ErrorKind::Other, "boom"))
+    }
+    fn flush(&self) -> std::io::Result<()> {
+        Err(std::io::Error::new(std::io::ErrorKind::Other, "boom"))
+    }
+}
+
+/// C18 (F18): terminal failures never panic or poison.
+#[test]
+fn c18_io_errors_do_not_panic_or_poison() {
+    let pb = ProgressBar::with_draw_target(Some(5), ProgressDrawTarget::term_like(Box::new(FailingTerm)));
+    pb.set_tab_width(4);
+    pb.inc(1);
+    assert_eq!(pb.position(), 1);
+    let mp = MultiProgress::with_draw_target(ProgressDrawTarget::term_like(Box::new(FailingTerm)));
+    let a = mp.add(ProgressBar::new(5));
+    a.tick();
+    mp.suspend(|| ());
+    a.suspend(|| ());
+    a.inc(1);
+    assert!(mp.println("x").is_err());
+}
